@@ -127,3 +127,28 @@ Theorem C05_scope_nonleaf_target :
     st_roots st' <> roots term_ops (kill term_ops hs s).
 Proof. exact stump_del_accepted_nonleaf_refuted. Qed.
 Print Assumptions C05_scope_nonleaf_target.
+
+(** ** The map forest applies the same block identically, whatever the encoding (Proofs/MapMutUnify2.v):
+    the mirror of [MapPollard.Modify] on any state in the invariant, given the block's targets in ANY
+    order and ANY proof hashes (it never reads them), ends in the invariant for the reference forest
+    after the block - so (C01_map_forest_every_history) it reports the reference roots and leaf count,
+    the same value the roots-only verifier reaches ([C05_any_accepted_block]). *)
+From Utreexo Require Import Model.MapRead Model.MapMut Proofs.MapMutAdd Proofs.MapMutUnify2.
+From Coq Require Import Permutation.
+
+Theorem C05_map_forest_any_encoding :
+  forall (H : Type) (HO : ops H), ops_ok HO ->
+  (forall x y, op_eqb HO (op_hash2 HO x y) (op_empty HO) = false) ->
+  forall (s : slots H) (R : list H) (m : mstate H) (adds : list (H * bool)) (dels : list H)
+         (ts : list N) (pf : list H) (targets : list N) (proof : list H),
+    MapMutAdd.Inv H HO s R m -> nimage HO s -> dels_ok s R dels ->
+    exp_prove HO (mk_ctx HO s) dels = Some (ts, pf) ->
+    Permutation targets ts ->
+    N.of_nat (length s) + N.of_nat (length adds) <= 2 ^ 63 ->
+    MapMutAdd.adds_ok H HO (kill HO dels s) (filter (fun h => negb (memH HO h dels)) R) (ms_full m) adds ->
+    exists m', mm_modify HO m adds dels targets proof = Some m' /\
+      MapMutAdd.Inv H HO (apply_block HO s dels (map fst adds))
+        (fold_left (MapMutAdd.Rnext H (ms_full m)) adds (filter (fun h => negb (memH HO h dels)) R)) m' /\
+      ms_total m <= ms_total m' /\ ms_full m' = ms_full m.
+Proof. exact block_Inv. Qed.
+Print Assumptions C05_map_forest_any_encoding.
